@@ -86,12 +86,11 @@ def parseWithMeta (v : Str) (style : ScalarStyle) (tag : Option Tag) : Option Sc
   else match tag with
     | some t =>
       if t.handle == coreHandle then
-        let sfx := String.ofList t.suffix
-        if sfx == "bool" then
+        if t.suffix == "bool".toList then
           (if v == "true".toList then some (.bool true) else if v == "false".toList then some (.bool false) else none)
-        else if sfx == "int" then (fromStrRadix v 10).map .int
-        else if sfx == "float" then (parseF64Yaml v).map .float
-        else if sfx == "null" then (if v == ['~'] || v == "null".toList then some .null else none)
+        else if t.suffix == "int".toList then (fromStrRadix v 10).map .int
+        else if t.suffix == "float".toList then (parseF64Yaml v).map .float
+        else if t.suffix == "null".toList then (if v == ['~'] || v == "null".toList then some .null else none)
         else some (.string v)
       else some (.string v)
     | none => some (parseFromCow v)
